@@ -5,6 +5,7 @@ import MoneroModel.Proofs.ScanRecover
 import MoneroModel.Proofs.GroupRefine
 import MoneroModel.Proofs.GroupRefineScan
 import MoneroModel.Proofs.EdwardsPermissive
+import MoneroModel.Proofs.TxDecodedWF
 import MoneroModel.Props.C07
 import MoneroModel.Drv.C10
 /-! C09 — "Recovered one-time secret key matches the output's one-time public key".
@@ -260,8 +261,11 @@ LITERALLY what the lawful instance `edOps` with `decPermissive` computes — the
 (2) `Owned.recoverKey` (the model of `OwnedTxOut::recover_key`) on every record;
 (3) the WHOLE scan `checkOutputsPrefix` — which outputs are reported, with which matched key, position and index, and the openings — on
     every prefix, valid spend-key representative, ranges and RingCT base whose compact ecdh amounts have at most 8 bytes (`BaseOk`;
-    exactly 8 in every parsed transaction and in every scenario transaction) — the model side of `c09_scenario`;
-(4) the same for `checkOutputsTx` with the spend key `s•G` computed by the driver (`c09_scan_tx`), `s` below 2^260;
+    exactly 8 in every PARSED transaction — proved: `C09_decoded_baseOk`; the scenario builder `Drv.C07.Scen.toModel` writes 8-byte
+    amounts too, which is read off its definition, not proved) — the model side of `c09_scenario`;
+(4) the same for `checkOutputsTx` with the spend key `s•G` computed by the driver (`c09_scan_tx`), `s` below 2^260; for the
+    transactions that arm actually scans (`Monero.tx (Hex.decode h) = some (t, [])`) the side condition `BaseOk` is discharged in
+    `C09_driver_refines_decoded`;
 (5) the text `c09_scan_tx` prints is the text computed from `Owned.recoverKey edOps`.
 So the hypothesis `checkOutputsPrefix edOps … = .ok ws` of `C09_owned_recover_ed25519` is about the very list the driver prints. -/
 theorem C09_driver_refines (v s : ℕ) (hv : v < 2 ^ 260) (B : Ed.Pt) (hB : Valid B) (n i j : ℕ) :
@@ -290,6 +294,36 @@ theorem C09_driver_refines (v s : ℕ) (hv : v < 2 ^ 260) (B : Ed.Pt) (hB : Vali
     exact refines_checkOutputsPrefix R hd t.pre v hv _ h1 a b c d t.base hb
   · unfold Drv.C10.showScanRecover
     simp only [hrec]
+
+/-- in a transaction that came out of the decoder every compact ecdh amount has exactly 8 bytes (`Hash8`; `decoded_wf_tx`), and a
+base of type 0 has no ecdh entries: the side condition `BaseOk` of `C09_driver_refines` (3)/(4) is a FACT for parsed transactions -/
+theorem C09_decoded_baseOk (bytes rest : Bytes) (t : Tx) (hdec : Monero.tx bytes = some (t, rest)) : BaseOk t.base := by
+  obtain ⟨_, h1, h2⟩ := decoded_wf_tx bytes t rest hdec
+  cases hb : t.base with
+  | none => trivial
+  | some bb =>
+    have hv : t.pre.version ≠ 1 := by
+      intro hv1; have := (h1 hv1).2.1; rw [hb] at this; cases this
+    have hin : t.pre.ins ≠ [] := by
+      intro hi; have := ((h2 hv).2.1 hi).1; rw [hb] at this; cases this
+    obtain ⟨b0, hb0, hwf, _⟩ := (h2 hv).2.2 hin
+    rw [hb] at hb0; cases hb0
+    intro e he
+    by_cases hty : bb.ty = 0
+    · have := (hwf.2.1 hty).2.2.1; rw [this] at he; cases he
+    · obtain ⟨_, _, _, hall, _⟩ := hwf.2.2 hty
+      have hwe := hall e he
+      cases e with
+      | std _ _ => trivial
+      | bp am => exact Nat.le_of_eq hwe.2
+
+/-- `C09_driver_refines` (4) for what the arm `c09_scan_tx` evaluates — a transaction PARSED from wire bytes: no side condition on
+the RingCT base is left -/
+theorem C09_driver_refines_decoded (v s : ℕ) (hv : v < 2 ^ 260) (hs : s < 2 ^ 260) (bytes rest : Bytes) (t : Tx)
+    (hdec : Monero.tx bytes = some (t, rest)) (a b c d : ℕ) :
+    checkOutputsTx Drv.refOps Drv.C10.decPerm t v (Drv.refOps.smul s Drv.refOps.base) a b c d
+      = checkOutputsTx edOps decPermissive t v (s • edOps.base) a b c d :=
+  (C09_driver_refines v s hv Ed.G G_valid 0 0 0).2.2.2.1 t a b c d hs (C09_decoded_baseOk bytes rest t hdec)
 
 /-- the formula inlined in the scenario driver (`Drv.C07.Scen.showRecover`: `Drv.decodeKey w.txKey`, then `recoverKey` on the owned
 output's own position and index) is the model `Owned.recoverKey` of `OwnedTxOut::recover_key` on `Drv.refOps` (hence, by
